@@ -160,7 +160,10 @@ class Env:
         same = int(_codec.digest(tuple((l[0], len(l[1]), l[3]) for l in leaves))[:2], 16) % 2 == 1
         self.same_names = same
         # every engine registers the user-defined column function "vf_scale" with its own factor (expr.SCALE)
-        S = (sql_engine_cls or sql.Engine)(name="S", functions={"vf_scale": lambda x: x * _expr.SCALE[0]})
+        def _boom(*args):
+            raise InjectedFault("injected fault while a column function was being converted")
+
+        S = (sql_engine_cls or sql.Engine)(name="S", functions={"vf_scale": lambda x: x * _expr.SCALE[0], "vf_boom": _boom})
         A = (iter_engine_cls or iteration.Engine)(name="A", functions={"vf_scale": lambda x: x * _expr.SCALE[1]})
         B = (iter_engine_cls or iteration.Engine)(name="A" if same else "B", functions={"vf_scale": lambda x: x * _expr.SCALE[2]})
         self.engines = [S, A, B]
